@@ -415,6 +415,21 @@ func c16Extras(c *ctx) {
 			c.fail("TypeMapOf does not terminate", map[string]interface{}{"op": "typemapof", "type": "type SelfPtr *SelfPtr"}, "no result after 3 s: "+err.Error(), "C16-F3-self-pointer-type-spins")
 		}
 	}
+	// the one-map entry points are the two halves of ExtractTypeNameMap
+	for ti, t := range zooTypes {
+		val := genValue(t, c.seed*977+uint64(ti), 30, 40)
+		tmA, nmA, ok := safeExtract(val)
+		if !ok {
+			continue
+		}
+		c.eval(fmt.Sprint("halves:", t.String()))
+		var tmB map[string]reflect.Type
+		var nmB map[string]string
+		o, _ := guard(func() error { tmB = hessian.TypeMapFrom(val); nmB = hessian.NameMapFrom(val); return nil })
+		if o != oOK || !sameTypeMap(tmA, tmB) || !sameNameMap(nmA, nmB) {
+			c.fail("TypeMapFrom / NameMapFrom differ from ExtractTypeNameMap", map[string]interface{}{"op": "halves", "type": t.String()}, fmt.Sprint(o, len(tmA), len(tmB), len(nmA), len(nmB)), "")
+		}
+	}
 	// types reachable only through interface values
 	w := &WithIface{Any: []interface{}{&OnlyInIface{1}, int32(2), []interface{}{&Inner{1, "x"}}}}
 	c.eval("iface/WithIface")
